@@ -465,14 +465,35 @@ func factsFromCond(cond ssa.Value, pol bool, S ssa.Value) []lenFact {
 		op = negOp(op)
 	}
 	x, y := b.X, b.Y
-	if isLenOf(y, S) && !isLenOf(x, S) {
+	lenSide := func(v ssa.Value) (int64, bool) {
+		// len(S) + c
+		if isLenOf(v, S) {
+			return 0, true
+		}
+		if bo, ok := stripConv(v).(*ssa.BinOp); ok {
+			if c, isK := constInt64Of(bo.Y); isK && isLenOf(bo.X, S) {
+				if bo.Op == token.SUB {
+					return -c, true
+				}
+				if bo.Op == token.ADD {
+					return c, true
+				}
+			}
+		}
+		return 0, false
+	}
+	cx, okx := lenSide(x)
+	cy, oky := lenSide(y)
+	if oky && !okx {
 		x, y = y, x
+		cx, okx = cy, true
 		op = swapOp(op)
 	}
-	if !isLenOf(x, S) {
+	if !okx {
 		return out
 	}
 	base, k := decompose(y)
+	k -= cx // len(S) + cx OP base + k   ⇒   len(S) OP base + (k - cx)
 	switch op {
 	case token.GEQ:
 		out = append(out, lenFact{base, k})
@@ -821,6 +842,16 @@ func (p *Prog) bndSites(fns []*ssa.Function, unproven map[string]string, excepti
 				if x.High != nil {
 					b, k := decompose(x.High)
 					ok, why := lenAtLeast(x.X, b, k, x.Block())
+					if !ok {
+						// s[:n] only needs n <= cap(s)
+						isCap := func(v ssa.Value) bool {
+							cl, isCl := stripConv(v).(*ssa.Call)
+							return isCl && builtinName(&cl.Call) == "cap" && sameSlice(cl.Call.Args[0], x.X)
+						}
+						if dominatedByEdge(x.Block(), Rel{Op: token.LEQ, X: Same(x.High), Y: isCap}, false) || dominatedByEdge(x.Block(), Rel{Op: token.LSS, X: Same(x.High), Y: isCap}, false) {
+							ok, why = true, "high <= cap established by a dominating comparison"
+						}
+					}
 					okAll = okAll && ok && nonNeg(x.High, x.Block(), map[ssa.Value]bool{})
 					whys = append(whys, "high: "+why)
 					if x.Low != nil {
